@@ -33,5 +33,12 @@ ValuesOutcome(e) ==
         ELSE IF e.kind = "props"
              THEN (IF ObjClause(e.a, o.a) # "" THEN ObjClause(e.a, o.a)
                    ELSE IF ObjClause(e.b, o.b) # "" THEN ObjClause(e.b, o.b) ELSE "ok")
+        ELSE IF e.kind = "container"
+             THEN LET bad(k) == ObjClause(e.a, o[k].a) # "" \/ ObjClause(e.b, o[k].b) # ""
+                  IN  IF bad("list") THEN "copy-in-list-changed-the-value"
+                      ELSE IF bad("tuple") THEN "copy-in-tuple-changed-the-value"
+                      ELSE IF bad("dict") THEN "copy-in-dict-changed-the-value"
+                      ELSE IF bad("pickle") THEN "pickle-of-list-changed-the-value"
+                      ELSE IF bad("shallow") THEN "shallow-copy-of-list-changed-the-value" ELSE "ok"
         ELSE "unknown-kind"
 =============================================================================
